@@ -5,6 +5,9 @@ with the reason given in tools/not_claimed.json)."""
 import json, os, subprocess
 root = os.path.dirname(os.path.dirname(os.path.abspath(__file__)))
 checks = json.load(open(os.path.join(root, "tools", "checks.json")))
+import glob
+for f in sorted(glob.glob(os.path.join(root, "tools", "checks.d", "*.json"))):
+    checks.update(json.load(open(f)))
 notc = json.load(open(os.path.join(root, "tools", "not_claimed.json")))
 props = [json.loads(l)["id"] for l in open(os.path.join(root, "properties.jsonl"))]
 hooks = subprocess.run(["git", "-C", "/repo", "log", "--format=%H %s", "--grep=^verif hook"],
